@@ -1336,6 +1336,54 @@ func vfC07CheckCommon(k *vfKit, w *vfC07World, ix *vfC07Index, report vfC07Repor
 			}
 		}
 	}
+	// ---- a socket is opened only for a session that has completely sent a message: before the dial
+	// returned, some message of that session must have been received in full (every fragment ID of
+	// its fragment count, or an unfragmented datagram)
+	{
+		got := map[int]map[int64]bool{}
+		completeAt := map[int]int{} // message number -> log position of the fragment that completed it
+		for _, e := range w.evs {
+			if e.Kind != "recv" {
+				continue
+			}
+			m := w.msgs[e.No]
+			if m == nil || m.Undeliverable {
+				continue
+			}
+			if _, done := completeAt[e.No]; done {
+				continue
+			}
+			id, cnt := e.Aux>>8, e.Aux&0xff
+			if cnt <= 1 {
+				completeAt[e.No] = e.Seq
+				continue
+			}
+			if got[e.No] == nil {
+				got[e.No] = map[int64]bool{}
+			}
+			if id < cnt {
+				got[e.No][id] = true
+			}
+			if int64(len(got[e.No])) == cnt {
+				completeAt[e.No] = e.Seq
+			}
+		}
+		for _, sk := range w.socks {
+			ok := false
+			for no, at := range completeAt {
+				if w.msgs[no].Sid == sk.sid && at < sk.dialSeq {
+					ok = true
+					break
+				}
+			}
+			if !ok {
+				report("udp:socket-without-complete-message", sk.dialSeq, "socket %d was opened for session %d (%s) although that session had not completely sent any message yet",
+					sk.id, sk.sid, sk.dialAddr)
+			} else {
+				k.Count("ev_sockets_opened_by_complete_message", 1)
+			}
+		}
+	}
 	// ---- sockets: closed exactly once
 	for _, s := range w.socks {
 		k.Count("ev_sockets", 1)
